@@ -488,12 +488,14 @@ package container
 //@ func container.(*container).socketError
 //@   trusted "records the transport error once and closes done (sync.Once closure)"
 //@   pure
-//@ func container.(*container).recvLoop props C10 C14
+//@ func container.(*container).recvLoop props C09 C10 C14
 //@   arith int
 //@   requires c != nil && c.socket != nil && c.socket.Socket != nil && c.socket.Socket.UnixConn != nil && len(c.socket.Socket.recvBuff) == 4096 && c.socket.decoder != nil
 //@   requires sep(c, c.socket) && sep(c.socket, c.socket.Socket) && sep(c, c.socket.Socket)
 //@   assigns all(c.socket.buff), all(c.socket.Socket.recvBuff), c.socket.recvBuff.Buffer, S._all, FD._all
-//@   callsite (*socket).RecvMsg: assert @C10 @C14 ref_as(e, reply).Error == nil && ref_as(e, reply).ExecReply == nil && len(ref_as(e, reply).BatchErrors) == 0
+// every reply is decoded into a zero value: gob leaves fields it does not receive untouched, so a reused
+// reply would report the previous run's exit status whenever the new one is zero (C09)
+//@   callsite (*socket).RecvMsg: assert @C09 @C10 @C14 ref_as(e, reply).Error == nil && ref_as(e, reply).ExecReply == nil && len(ref_as(e, reply).BatchErrors) == 0
 //@   loop 0: invariant c == old(c) && c.socket == old(c.socket) && c.socket.Socket == old(c.socket.Socket) && c.socket.Socket.UnixConn == old(c.socket.Socket.UnixConn) && len(c.socket.Socket.recvBuff) == 4096 && c.socket.decoder == old(c.socket.decoder)
 
 // ---- the wait loop of the container init (C09, C12): the status reported for a run is that of the pid the
